@@ -121,7 +121,9 @@ class LatexEncodingMiddleware(_PyStringTransformerMiddleware):
                     UnicodeToLatexConversionRule(
                         rule_type=RULE_REGEX,
                         # keep math mode parts as is
-                        rule=[(re.compile(r"(?<!\\)(\$.*?[^\\]\$)"), r"\1")],
+                        #   (the span ends at the first `$` which is not escaped;
+                        #   `\\$` is an escaped backslash in front of the closing `$`)
+                        rule=[(re.compile(r"(?<!\\)(\$(?:[^$\\\n]|\\.)+\$)"), r"\1")],
                     )
                 )
             if enclose_urls is True:
